@@ -100,6 +100,8 @@ type SchemaSite struct {
 	Parent J        // object schema holding S as a property (nil otherwise)
 	Prop   string   // property name in Parent
 	Param  J        // body parameter (request sites)
+	// AllOfOnly: some allOf step on the way came from a schema without own properties
+	AllOfOnly bool
 }
 
 func (s SchemaSite) Depth() int { return len(s.Via) }
@@ -182,6 +184,9 @@ func walkSchemaChildren(root J, s J, base SchemaSite, followRefs bool, seen map[
 			nb := base
 			nb.Via = via("allOf:" + itoa(i))
 			nb.Parent, nb.Prop = nil, ""
+			if _, own := s["properties"].(J); !own {
+				nb.AllOfOnly = true
+			}
 			walkSchema(root, ej, nb, followRefs, seen, out, depth+1)
 		}
 	}
